@@ -1,11 +1,15 @@
 import Model.Pool
 import Proofs.Lemmas.Pool
+import Proofs.Lemmas.RelaySession
 /-!
 # C19 — relay connection pools stay within bounds and strand no request
 
 Theorems over `Model/Pool.lean`: the `BlockingDeque` (semaphore = length for every operation
 sequence) and the pool transition system (every interleaving of attempts, polls, wake-ups, idle
-expiries, completions, failures, re-queues and link callbacks).
+expiries, completions, failures, re-queues and link callbacks). Last section, over
+`Model/RelaySession.lean` (the commands a relay client writes for one delivery and for several
+deliveries over one connection, for every behaviour of the peer): a reused connection carries one
+message at a time and a failed transaction is reset before the next message uses it.
 -/
 namespace Slimta.C19
 open Slimta.Pool
@@ -682,6 +686,36 @@ theorem stuck_means_all_answered (size : Nat) (reuse pers : Bool) (ls : List Lab
   rw [hq, hb r] at h1
   simp at h1
   exact List.count_pos_iff.mp (by omega)
+
+/-! ## what is on a reused connection -/
+section Reuse
+open Slimta.RelaySession
+
+/-- **Message content goes out only when the peer accepted the sender, a recipient and DATA**
+    (whatever the other answers are, with and without PIPELINING, SMTP and LMTP). -/
+theorem content_only_after_acceptance (lmtp p : Bool) (cmds : List Cmd) (m : Nat) (rs : List Nat) (d : Nat) (as : List Ans)
+    (hb : .body ∈ (afterEnvelope lmtp p cmds m rs d as).cmds) (hn : .body ∉ cmds) :
+    isError m = false ∧ (∃ r ∈ rs, isError r = false) ∧ isError d = false :=
+  afterEnvelope_body lmtp p cmds m rs d as hb hn
+
+/-- **A failed transaction is reset before the connection is used again.** For every number of
+    recipients and every behaviour of the peer: when a delivery leaves the connection alive, the last
+    command written is RSET, or it is the message data and that was accepted (for LMTP: for every
+    accepted recipient). -/
+theorem failed_transaction_is_reset (lmtp p : Bool) (n : Nat) (as : List Ans) (h : (deliver lmtp p n as).alive = true) :
+    ((deliver lmtp p n as).delivered = false ∧ (deliver lmtp p n as).cmds.getLast? = some .rset) ∨
+    ((deliver lmtp p n as).delivered = true ∧ (deliver lmtp p n as).cmds.getLast? = some .body) :=
+  deliver_clean lmtp p n as h
+
+/-- **One message at a time on a reused connection**: over any number of messages and any peer
+    behaviour, the commands of the messages do not interleave — each delivery's commands begin with
+    its MAIL and hold no other — and every MAIL but the first comes directly after a RSET or after
+    message data. -/
+theorem one_message_at_a_time (lmtp p : Bool) (ns : List Nat) (as : List Ans) :
+    MailAfterClean (session lmtp p ns as) ∧ ∀ n as', Shape (deliver lmtp p n as').cmds :=
+  ⟨session_clean lmtp p ns as, fun n as' => deliver_shape lmtp p n as'⟩
+
+end Reuse
 
 /-! Non-vacuity: a run that exercises bound, respawn and re-queue. -/
 example : (run true (init 1 true) [.attempt 1, .attempt 2, .poll 0, .finish 0, .poll 0, .requeue 0, .unlink 0]).map
